@@ -473,7 +473,7 @@ class YP(object):
     def load_script_from_file(self, fn, overwrite=True):
         """Same as load_script_from_string, but from file fn."""
 
-        with open(fn, "r") as f:
+        with open(fn, "r", encoding='utf8') as f:
             self.load_script_from_string(f.read(), fn=fn, overwrite=overwrite)
     
     def register_function(self, name, func, arity=None):
